@@ -8,6 +8,8 @@ import re
 
 import sympy as sp
 
+from ..anf import is_zero
+
 from ..facts import V2S, voigt_canon
 from ..fillmodel import (run_fill, Scenario, parse_relations, relation_matrix, SYMS21, FILL)
 from ..model import dotted_name, src
@@ -283,10 +285,28 @@ def r_apply(ctx, model):
     ev = Ev(model, {("global", "cij.util:c_"): LibV("cij.c_")}, intr, ctx=ctx)
     symmetry = DictV({"system": "cubic", "ignore_rank": True})
     ev.call_def(f, model.mods["cij.io.traditional.elast_dat"], ref, [data, symmetry], {})
-    ok = "args" in cap and len(cap["args"]) == 1 and {k: v for k, v in cap["kwargs"].items()} == {"system": "cubic", "ignore_rank": True}
-    ctx.check(ok, "fill_cij(table, **symmetry)", w, expected="fill_cij(df, system='cubic', ignore_rank=True)",
-              found=f"{len(cap.get('args', []))} positional, kwargs {cap.get('kwargs')}",
-              explanation="the symmetry settings are not handed to fill_cij as keyword arguments together with the table", key="apply.fill")
+    # the call is bound against fill_cij's own signature: however the settings are passed (keywords, positions, defaults filled in by hand),
+    # every parameter must receive the configured value, or the default of fill_cij where the settings say nothing
+    ff = model.func("cij.util.fill:fill_cij")
+    pnames = [a.arg for a in ff.args.posonlyargs + ff.args.args]
+    evd = Ev(model, {}, {}, ctx=ctx)
+    defaults = {n_: evd.eval(d_, {}, model.mods["cij.util.fill"]) for n_, d_ in zip(reversed(pnames), reversed(ff.args.defaults))}
+    want_eff = dict(defaults)
+    want_eff.update({"system": "cubic", "ignore_rank": True})
+    eff, ok = dict(defaults), "args" in cap and len(cap["args"]) >= 1 and len(cap["args"]) <= len(pnames)
+    if ok:
+        for n_, v_ in zip(pnames[1:], cap["args"][1:]):
+            eff[n_] = v_
+        for n_, v_ in cap["kwargs"].items():
+            if n_ not in pnames or n_ in pnames[1:len(cap["args"])]:
+                ok = False
+            eff[n_] = v_
+    same = ok and set(eff) == set(want_eff) and all((is_zero(sp.sympify(eff[n_]) - sp.sympify(want_eff[n_])) if isinstance(eff[n_], sp.Basic) and not isinstance(eff[n_], sp.logic.boolalg.BooleanAtom)
+                                                     and isinstance(want_eff[n_], sp.Basic) and not isinstance(want_eff[n_], sp.logic.boolalg.BooleanAtom) else eff[n_] == want_eff[n_]) for n_ in want_eff)
+    ctx.check(same, "fill_cij(table, <the symmetry settings>): every parameter of fill_cij receives its configured value (or fill_cij's default)", w,
+              expected=f"fill_cij(df, system='cubic', ignore_rank=True) - effective {({k_: str(v_) for k_, v_ in want_eff.items()})}",
+              found=f"{len(cap.get('args', []))} positional, kwargs {sorted(cap.get('kwargs', {}))}: effective {({k_: str(v_) for k_, v_ in eff.items()})}",
+              explanation="the symmetry settings do not reach fill_cij's parameters of the same name (a setting bound to another parameter, dropped, or replaced by a value that is not fill_cij's default)", key="apply.fill")
     whole = cap.get("nrows") == sp.Symbol("NSEQ", positive=True, integer=True) and cap.get("fills") == 1
     ctx.check(whole, "fill_cij is applied once, to the table of all volumes (one row per volume)", w, expected="one call with a table of NSEQ rows",
               found=f"{cap.get('fills')} call(s) per sweep with a table of {cap.get('nrows')} row(s)",
